@@ -127,7 +127,7 @@ func init() {
 					Thorough: {Depth: 5, Budget: 6 * time.Minute, ReplayEvery: 8, MaxStates: 300000},
 				}},
 			},
-			Owns:        ownsAny("str.release_amount", "str.refund_amount", "str.lastoutflow", "str.zerotime", "str.sustain", "str.deposit"),
+			Owns:        ownsAny("str.release_amount", "str.refund_amount", "str.lastoutflow", "str.zerotime", "str.sustain", "str.deposit", "tx.accept_unexpected:str.create", "tx.accept_unexpected:str.topup", "tx.accept_unexpected:str.update"),
 			Extra:       c11Enum,
 			Assumptions: []string{"Cosmos-SDK bank/auth semantics are the trusted substrate", "numeric domain covered on the boundary grid listed in coverage.grid, exhaustively on the grid", "a stream with zero deposit is exempt from the sustain rule (nothing can be drained)"},
 		}
